@@ -225,6 +225,11 @@ func (vc *VC) eval(e *SExpr, env *Env) *Val {
 			name := fmt.Sprintf("q_%s_%d", sanitize(b.Name), vc.nquant)
 			decls = append(decls, fmt.Sprintf("(%s %s)", name, vc.sortOf(t)))
 			inner = inner.with(b.Name, &Val{T: name, Ty: t})
+			if _, isPtr := t.Underlying().(*types.Pointer); isPtr {
+				// references range over all integers: the same translation is
+				// used where a quantified fact is assumed and where it is proved
+				continue
+			}
 			if rf := vc.rangeFact(name, t); rf != "" {
 				guards = append(guards, rf)
 			}
@@ -742,6 +747,19 @@ func (vc *VC) evalCall(e *SExpr, env *Env) *Val {
 			x := vc.eval(args[0], env)
 			tv := vc.eval(args[1], env)
 			return &Val{T: vc.tagTest(x.T, types.NewPointer(tv.TypeV)), Ty: boolT}
+		case "funcis":
+			// funcis(f, name): the function value f is known, at translation
+			// time, to be the named function (decided syntactically)
+			x := vc.eval(args[0], env)
+			name := args[1].Name
+			if args[1].Op == "string" {
+				name = strings.Trim(args[1].Name, "\"")
+			}
+			is := x != nil && x.Clo != nil && x.Clo.Fn != nil && (x.Clo.Fn.Name() == name || strings.HasSuffix(x.Clo.Fn.String(), "."+name) || strings.HasSuffix(x.Clo.Fn.String(), "/"+name))
+			if is {
+				return &Val{T: "true", Ty: boolT}
+			}
+			return &Val{T: "false", Ty: boolT}
 		case "asptr":
 			x := vc.eval(args[0], env)
 			tv := vc.eval(args[1], env)
@@ -803,6 +821,9 @@ func (vc *VC) evalCall(e *SExpr, env *Env) *Val {
 		if p, ok := vc.p.db.Preds[fe.Name]; ok {
 			if len(p.Params) != len(args) {
 				vc.evalFail(env, "predicate %s expects %d arguments", p.Name, len(p.Params))
+			}
+			if p.Triggered {
+				return vc.applyFpred(p, args, env)
 			}
 			inner := &Env{vars: map[string]*Val{}, st: env.st, old: env.old, pkg: p.Pkg, imports: p.Imports, where: env.where + " in pred " + p.Name}
 			for i, b := range p.Params {
@@ -1012,6 +1033,11 @@ func (vc *VC) heapRangeAxiom(h string, t types.Type) {
 	}
 	vc.declared[key] = true
 	vc.declLog = append(vc.declLog, key)
+	if vc.macros[h] {
+		// a macro (store/ite term) is not a legal pattern
+		vc.emit("(assert (forall ((r Int)) %s))", rf)
+		return
+	}
 	vc.emit("(assert (forall ((r Int)) (! %s :pattern ((select %s r)))))", rf, h)
 }
 
@@ -1040,4 +1066,93 @@ func conjuncts(cl *Clause) []*Clause {
 		}
 	}
 	return out
+}
+
+
+// fpredDef is the translation of an fpred: a declared function whose first
+// arguments are the storages its body reads.
+type fpredDef struct {
+	fname  string
+	heaps  []string
+	hsorts []string
+	ptypes []types.Type
+	rtype  types.Type
+}
+
+func (vc *VC) fpredDefinition(p *PredSpec, env *Env) *fpredDef {
+	if vc.fpreds == nil {
+		vc.fpreds = map[string]*fpredDef{}
+	}
+	fname := "fp_" + sanitize(p.Name)
+	if d, ok := vc.fpreds[p.Name]; ok && vc.declared[fname] {
+		return d
+	}
+	sym := &symState{}
+	st := newState()
+	st.sym = sym
+	inner := &Env{vars: map[string]*Val{}, st: st, old: st, pkg: p.Pkg, imports: p.Imports, where: env.where + " in fpred " + p.Name}
+	d := &fpredDef{fname: fname}
+	var pvars, psorts []string
+	for _, b := range p.Params {
+		pt := vc.resolveType(b.Type, p.Pkg, p.Imports, true)
+		d.ptypes = append(d.ptypes, pt)
+		v := "pp_" + sanitize(b.Name)
+		pvars = append(pvars, v)
+		psorts = append(psorts, vc.sortOf(pt))
+		inner.vars[b.Name] = &Val{T: v, Ty: pt}
+	}
+	vc.noEmit++
+	body := vc.eval(p.Body, inner)
+	vc.noEmit--
+	d.rtype = body.Ty
+	d.heaps, d.hsorts = sym.names, sym.sorts
+	var binders, argv, sorts []string
+	for i, v := range sym.vars {
+		binders = append(binders, fmt.Sprintf("(%s %s)", v, sym.sorts[i]))
+		argv = append(argv, v)
+		sorts = append(sorts, sym.sorts[i])
+	}
+	for i, v := range pvars {
+		binders = append(binders, fmt.Sprintf("(%s %s)", v, psorts[i]))
+		argv = append(argv, v)
+		sorts = append(sorts, psorts[i])
+	}
+	rs := vc.sortOf(body.Ty)
+	app := fname
+	decl := fmt.Sprintf("(declare-fun %s (%s) %s)", fname, strings.Join(sorts, " "), rs)
+	if len(argv) > 0 {
+		app = fmt.Sprintf("(%s %s)", fname, strings.Join(argv, " "))
+		decl += fmt.Sprintf("\n(assert (forall (%s) (! (= %s %s) :pattern (%s))))", strings.Join(binders, " "), app, body.T, app)
+	} else {
+		decl += fmt.Sprintf("\n(assert (= %s %s))", app, body.T)
+	}
+	vc.declare(fname, decl)
+	vc.fpreds[p.Name] = d
+	return d
+}
+
+func (vc *VC) applyFpred(p *PredSpec, args []*SExpr, env *Env) *Val {
+	if len(p.Params) != len(args) {
+		vc.evalFail(env, "predicate %s expects %d arguments", p.Name, len(p.Params))
+	}
+	d := vc.fpredDefinition(p, env)
+	var ts []string
+	for i, h := range d.heaps {
+		ts = append(ts, vc.getIn(env.st, h, d.hsorts[i]))
+	}
+	for i := range p.Params {
+		av := vc.eval(args[i], env)
+		pt := d.ptypes[i]
+		if isUntypedNil(av.Ty) {
+			av = &Val{T: vc.zeroValue(pt), Ty: pt}
+		}
+		if vc.sortOf(av.Ty) != vc.sortOf(pt) {
+			vc.evalFail(env, "argument %d of %s has sort %s, expected %s", i+1, p.Name, vc.sortOf(av.Ty), vc.sortOf(pt))
+		}
+		ts = append(ts, av.T)
+	}
+	if len(ts) == 0 {
+		return &Val{T: d.fname, Ty: d.rtype}
+	}
+	return &Val{T: fmt.Sprintf("(%s %s)", d.fname, strings.Join(ts, " ")), Ty: d.rtype}
 }
